@@ -34,5 +34,25 @@ def main():
     print("\n%d changes, %d caught." % (n, sum(1 for r in rows if "| caught |" in r)))
 
 
+def update_design():
+    """Replace the table of DESIGN.md section 12 (from its header row to the 'N changes, M caught.' line)."""
+    import io
+    import contextlib
+    buf = io.StringIO()
+    with contextlib.redirect_stdout(buf):
+        main()
+    table = buf.getvalue().rstrip("\n") + "\n"
+    p = ROOT / "DESIGN.md"
+    s = p.read_text()
+    i = s.index("| seeded change | checked by |")
+    m = re.search(r"^\d+ changes, \d+ caught\.\n", s[i:], flags=re.M)
+    j = i + m.end()
+    p.write_text(s[:i] + table + s[j:])
+
+
 if __name__ == "__main__":
-    main()
+    import sys
+    if "--update-design" in sys.argv:
+        update_design()
+    else:
+        main()
